@@ -399,11 +399,6 @@ theorem C19_cli_generic_is_the_common_view (r : Rendered) :
 
 /-- PROTOCOL-SPECIFIC MODE PRINTS THE ORIGINAL RESPONSE: the value is the response's own serde tree inside one object
 per variant of `as_original()`'s wrapper (`{"Valve": response}`, `{"GameSpy": {"One": response}}`). -/
-def unwrapVariants : List String → J → Option J
-  | [], j => some j
-  | v :: r, .obj (.cons k inner .nil) => if k = asciiBytes v then unwrapVariants r inner else none
-  | _ :: _, _ => none
-
 theorem C19_cli_protocol_specific_is_the_original (r : Rendered) :
     unwrapVariants r.variants (valueFor .protocolSpecific r) = some (valToJ r.tree) := by
   simp only [valueFor]
